@@ -18,6 +18,7 @@ From GE Require Import Model.Blech32 Model.AddrCodecs Model.Address.
 From GE Require Import Model.Issuance.
 From GE Require Import Lib.Heap Lib.Sched Model.Alias Model.FreeList.
 From GE Require Import Model.MerkleHist.
+From GE Require Import Model.Descriptor.
 Extraction Language OCaml.
 Extraction "model.ml"
   Byte.of_N Byte.to_N N.of_nat N.to_nat Z.of_N
@@ -59,4 +60,5 @@ Extraction "model.ml"
   Al.to_base58_conf Al.to_blech32 Al.tap_script_sigs Al.tap_leaf_scripts Al.get_utxo Al.reverse_bytes
   Al.value_from_bytes Al.asset_hash_from_bytes Al.txid_from_bytes Al.ser_vector Al.copy_all Al.read_all Al.pkg_globals
   FL.run_seq FL.run_sched FL.init FL.flist_cap
-  mkl_hist.
+  mkl_hist
+  Desc.parse Desc.script Desc.is_range.
